@@ -281,8 +281,21 @@ func runImm(s ImmScript, v *vt.V) {
 				}
 				for member := range closureSeen[k] {
 					if _, still := now[member]; !still {
-						v.Failf("closure-broken", "after op %d %+v: %s dropped out of the closure of tag %s:%s", i, op, member, u.Repos[k.repo], u.Tags[k.tag])
-						return false
+						// no longer reached by the walk (a manifest on the way is now stored under another
+						// media type): what the tagged manifest referred to must be retrievable all the same
+						kind, dg, _ := strings.Cut(member, " ")
+						var err error
+						var r ociregistry.BlobReader
+						if kind == "blob" {
+							r, err = reg.GetBlob(ctx, u.Repos[k.repo], digest.Digest(dg))
+						} else {
+							r, err = reg.GetManifest(ctx, u.Repos[k.repo], digest.Digest(dg))
+						}
+						if err != nil {
+							v.Failf("closure-broken", "after op %d %+v: %s, referenced by tag %s:%s when it was observed, is no longer retrievable: %v", i, op, member, u.Repos[k.repo], u.Tags[k.tag], err)
+							return false
+						}
+						r.Close()
 					}
 				}
 			}
